@@ -132,7 +132,9 @@ def _so_mid(p: bytes) -> int:
     return int.from_bytes(p[off + 2:off + 8], "big")
 
 
-def histories(ctx, n_hist, n_events):
+def histories(ctx, n_hist, n_events, wrap=False):
+    """wrap: every source starts 1-4 packets before its sequence number wraps, so that SN 65535, 0 and 1 are sent - and
+    replayed - in every history"""
     for it in range(n_hist):
         ego = ctx.rng.choice([(413800000, 21100000), (-338688000, 1512093000), (-100, -100)])
         rs.VCLOCK.set_ms(1_700_000_000_000 + ctx.rng.randrange(0, 10 ** 9))
@@ -141,6 +143,9 @@ def histories(ctx, n_hist, n_events):
         mix = {"beacon": 2, "shb": 1, "tsb": 4, "gbc": 6, "gac": 3, "guc": 4, "lsreq": 2, "lsrep": 2, "dup": 9, "tick": 3,
                "req_guc": 1, "ls": 0, "cbf": 4, "req_shb": 0, "req_geo": 1, "ego": 0}
         sc = rs.Scenario(ctx.rng, st, n_sources=ctx.rng.choice([2, 3, 4]), mix=mix)
+        if wrap:
+            for src in sc.sources:
+                src.sn = 65535 - ctx.rng.randrange(0, 4)
         evs = sc.build(n_events)
         for k in range(len(evs)):
             if evs[k]["ev"] == "rx" and ctx.rng.random() < 0.03:
@@ -240,13 +245,15 @@ def run(ctx):
                 "(kind, source, sn, rhl, forwarded?, delivered?)")
     rs.stack.patch_time()
     if ctx.tier == "quick":
-        histories(ctx, 110, 90)
+        histories(ctx, 100, 90)
+        histories(ctx, 14, 70, wrap=True)
         for n in (3, 5):
             for topo in ("line", "mesh"):
                 for alg in ("SIMPLE", "CBF"):
                     flood(ctx, n, topo, alg, ctx.rng.choice([2, 3, 10]))
     else:
         histories(ctx, 600, 160)
+        histories(ctx, 80, 120, wrap=True)
         for n in (3, 4, 5):
             for topo in ("line", "mesh"):
                 for alg in ("SIMPLE", "CBF", "UNSPECIFIED"):
